@@ -47,6 +47,8 @@ PRODUCERS = [
     st.tuples(st.just("ufunc1"), VAR, st.sampled_from(["neg", "add1", "mul2", "gt", "abs", "square"])).map(list),
     st.tuples(st.just("ufunc2"), VAR, VAR, st.sampled_from(["add", "sub", "max"])).map(list),
     st.tuples(st.just("colvec"), VAR, st.lists(st.integers(-3, 3), min_size=1, max_size=5), st.sampled_from(["left", "right"]), st.sampled_from(["add", "sub"])).map(list),
+    st.tuples(st.just("colvecf"), VAR, st.lists(st.sampled_from([float("inf"), float("-inf"), 1e300, 0.1, 1e-300, 3.5, -2.25, 1e10]), min_size=1, max_size=5),
+              st.sampled_from(["left", "right"]), st.sampled_from(["add", "sub"])).map(list),
     st.tuples(st.just("cat"), VAR, VAR).map(list),
     st.tuples(st.just("sort"), VAR).map(list),
     st.tuples(st.just("cumsum"), VAR).map(list),
